@@ -807,7 +807,8 @@ func width(t types.Type) int {
 			return 32
 		case types.String, types.UntypedString, types.UnsafePointer, types.UntypedNil:
 			return -9
-		case types.Int, types.UntypedInt:
+		case types.Int, types.UntypedInt, types.Int64:
+			// Go int and int64 are mathematical integers with explicit wrap-around
 			return SortInt
 		default:
 			return 64
@@ -825,7 +826,7 @@ func isFloat(t types.Type) bool {
 }
 func isScalar(t types.Type) bool {
 	b, ok := t.Underlying().(*types.Basic)
-	if ok && (b.Kind() == types.Int || b.Kind() == types.UntypedInt) {
+	if ok && (b.Kind() == types.Int || b.Kind() == types.UntypedInt || b.Kind() == types.Int64) {
 		return true
 	}
 	return ok && b.Kind() != types.String && b.Kind() != types.UnsafePointer && b.Kind() != types.UntypedNil
@@ -919,9 +920,9 @@ func copyVal(v Value) Value {
 	case *ArrObj:
 		return &ArrObj{node: x.node, ew: x.ew}
 	case *BigObj:
-		return &BigObj{v: x.v, dig: x.dig}
+		return &BigObj{v: x.v, dig: x.dig, byt: x.byt}
 	case *TimeObj:
-		return &TimeObj{days: x.days, nanos: x.nanos}
+		return &TimeObj{days: x.days, nanos: x.nanos, civ: x.civ, clk: x.clk}
 	case *BufObj:
 		return &BufObj{s: x.s, rd: x.rd}
 	}
